@@ -83,7 +83,7 @@ theorem countWinning_eq_length (status : Nat → Bool) (first len : Nat) :
     simp only [countWinning, winningIds, List.length_append, ih]
     split <;> rfl
 
-theorem countWinning_le (status : Nat → Bool) (first len : Nat) :
+theorem g_countWinning_le (status : Nat → Bool) (first len : Nat) :
     countWinning status first len ≤ len := by
   induction len with
   | zero => exact Nat.le_refl 0
